@@ -5,7 +5,7 @@ CONSTANTS
   FEE = {0, 1}
   MARK <- MarkSigned
   MaxFills = 3
-INVARIANTS TypeOK AvgPositive SideSize Conservation FeesConserved
+INVARIANTS TypeOK AvgPositive FeesNonNegative SideSize Conservation FeesConserved
 PROPERTIES ExitIff Ids QmaxAvg FreshUnreal MarkOnlyUnreal NoPriceStutter PersistIsStutter
 VIEW View
 CHECK_DEADLOCK FALSE
